@@ -82,6 +82,12 @@ def run_replay(path):
 
 
 def replayable(ob):
+    from .contracts import REGISTRY
+
+    tgt = ob.name.split("/", 1)[0].split("[", 1)[0]
+    con = REGISTRY.get(tgt)
+    if con is not None and getattr(con, "no_replay", False):
+        return False
     inp = getattr(ob, "inputs", None)
     if not inp or "error" in inp:
         return False
